@@ -33,7 +33,7 @@ def targets():
         for m in json.load(open(idx)):
             out.append({'id': m['id'], 'patch': os.path.join(HERE, 'mutants', m['patch']),
                         'property': m.get('property'), 'what': m.get('what'), 'kind': m.get('kind'),
-                        'properties': m.get('properties')})
+                        'properties': m.get('properties'), 'masked': m.get('masked')})
     sd = os.path.join(HERE, 'seeded')
     if os.path.isdir(sd):
         for d in sorted(os.listdir(sd)):
@@ -90,7 +90,8 @@ def one(t, runs, use_examples):
             res['checks'][prop] = entry
             if caught and (t['property'] in PROPS or t.get('properties')):
                 break
-        res['status'] = 'caught' if caught else 'MISSED'
+        res['status'] = 'caught' if caught else ('masked (not detectable inside the domain): ' + t['masked']
+                                                 if t.get('masked') else 'MISSED')
         return res
     finally:
         shutil.rmtree(scratch, ignore_errors=True)
@@ -119,6 +120,7 @@ def main():
            'caught': sum(1 for r in results if r.get('status') == 'caught'),
            'missed': sum(1 for r in results if r.get('status') == 'MISSED'),
            'skipped': sum(1 for r in results if str(r.get('status')).startswith('skipped')),
+           'masked': sum(1 for r in results if str(r.get('status')).startswith('masked')),
            'results': results}
     os.makedirs(os.path.join(HERE, 'evidence'), exist_ok=True)
     name = 'selftest.json' if not args.only else 'selftest-partial.json'
